@@ -216,6 +216,11 @@ func (ir *IncResult) Abnormal() string {
 		if strings.Contains(ir.Stderr, "panic:") || strings.Contains(ir.Stderr, "fatal error:") {
 			return "panic"
 		}
+		if ir.Exit == -1 {
+			// ended by a signal it did not raise itself (no panic or runtime fatal error on its stderr): the kernel's
+			// OOM killer or an operator - an event of the environment, never a verdict about the node
+			return "harness"
+		}
 		return fmt.Sprintf("exit-%d", ir.Exit)
 	}
 }
